@@ -235,7 +235,11 @@ func WaitNoLibGoroutines(pkg string, polls int) []string {
 			return nil
 		}
 		runtime.Gosched()
-		time.Sleep(time.Duration(i+1) * 200 * time.Microsecond)
+		d := time.Duration(i+1) * 100 * time.Microsecond
+		if d > 2*time.Millisecond {
+			d = 2 * time.Millisecond
+		}
+		time.Sleep(d)
 	}
 	return left
 }
